@@ -1026,6 +1026,9 @@ static int btls_send(struct xcm_socket *__restrict s,
     if (len == 0)
 	return 0;
 
+    if (len > INT_MAX)
+	len = INT_MAX;
+
     bts->conn.ssl_condition = 0;
     bts->conn.ssl_wants = 0;
 
@@ -1079,6 +1082,9 @@ static int btls_receive(struct xcm_socket *__restrict s, void *__restrict buf,
 
     bts->conn.ssl_condition = 0;
     bts->conn.ssl_wants = 0;
+
+    if (capacity > INT_MAX)
+	capacity = INT_MAX;
 
     UT_SAVE_ERRNO;
     int rc = SSL_read(bts->conn.ssl, buf, capacity);
